@@ -306,6 +306,9 @@ htp_status_t htp_connp_REQ_CONNECT_CHECK(htp_connp_t *connp) {
     return HTP_OK;
 }
 
+// How much of the first line of tunnelled data the probe looks at, at most.
+#define HTP_CONNECT_PROBE_MAX_LEN 64
+
 /**
  * Determines whether inbound parsing needs to continue or stop. In
  * case the data appears to be plain text HTTP, we try to continue.
@@ -320,6 +323,12 @@ htp_status_t htp_connp_REQ_CONNECT_PROBE_DATA(htp_connp_t *connp) {
         // Have we reached the end of the line? For some reason
         // we can't test after IN_COPY_BYTE_OR_RETURN */
         if (connp->in_next_byte == LF || connp->in_next_byte == 0x00)
+            break;
+
+        // Only the first token of the line is examined below and no method
+        // name is anywhere near this long: there is no need to wait for (and
+        // buffer) the rest of a line that a binary protocol may never end.
+        if (connp->in_buf_size + (size_t) (connp->in_current_read_offset - connp->in_current_consume_offset) >= HTP_CONNECT_PROBE_MAX_LEN)
             break;
 
         IN_COPY_BYTE_OR_RETURN(connp);
